@@ -154,6 +154,13 @@ def check_optimize(case, rec):
     if "ambiguous" in AL.alignments([d["g"] for d in case["datasets"]], case["link_tolerance"], case["link_method"]):
         return
     rec.count("optimize_checked")
+    # at least 8 time points per dataset: with 3-4 the fit has no degrees of freedom left (residuals <= clps +
+    # parameters) and the statistics of create_result are undefined (C13 territory, not alignment)
+    ds = case["datasets"]
+    if any(len(d["t"]) < 8 for d in ds):
+        big = make_case([d["g"] for d in ds], case["link_tolerance"], case["link_method"], weights=[d["weight"] for d in ds],
+                        seed=ds[0]["dseed"] % 1000, nt=[max(len(d["t"]), 8 + i) for i, d in enumerate(ds)])
+        case = big
     c03.run_case(case, rec)
 
 
